@@ -133,6 +133,11 @@ impl AtomicUsize {
     pub fn get_mut(&mut self) -> &mut usize {
         self.0.get_mut()
     }
+    /// The wrapped atomic, bypassing the hooks (for observers that must not create events).
+    #[inline]
+    pub fn raw(&self) -> &atomic::AtomicUsize {
+        &self.0
+    }
     #[inline]
     pub fn load(&self, ord: Ordering) -> usize {
         rmw!(self, Op::Load, 0, ord, self.0.load(ord))
@@ -196,6 +201,11 @@ impl<T> AtomicPtr<T> {
     #[inline]
     pub fn get_mut(&mut self) -> &mut *mut T {
         self.0.get_mut()
+    }
+    /// The wrapped atomic, bypassing the hooks (for observers that must not create events).
+    #[inline]
+    pub fn raw(&self) -> &atomic::AtomicPtr<T> {
+        &self.0
     }
     #[inline]
     pub fn load(&self, ord: Ordering) -> *mut T {
